@@ -36,6 +36,16 @@ type structDecoder struct {
 	sortedFieldSets    []*structFieldSet
 	keyDecoder         func(*structDecoder, []byte, int64) (int64, *structFieldSet, error)
 	keyStreamDecoder   func(*structDecoder, *Stream) (*structFieldSet, string, error)
+	foldFieldMap       map[string]*structFieldSet // lower-cased name to the first field of that name
+}
+
+// lookupField returns the field an object key selects: the field of exactly
+// that name, otherwise the first field whose name matches case-insensitively.
+func (d *structDecoder) lookupField(key string) *structFieldSet {
+	if field, exists := d.fieldMap[key]; exists {
+		return field
+	}
+	return d.foldFieldMap[strings.ToLower(key)]
 }
 
 var (
@@ -387,11 +397,7 @@ func decodeKey(d *structDecoder, buf []byte, cursor int64) (int64, *structFieldS
 	}
 	cursor = c
 	k := *(*string)(unsafe.Pointer(&key))
-	field, exists := d.fieldMap[k]
-	if !exists {
-		return cursor, nil, nil
-	}
-	return cursor, field, nil
+	return cursor, d.lookupField(k), nil
 }
 
 func decodeKeyByBitmapUint8Stream(d *structDecoder, s *Stream) (*structFieldSet, string, error) {
@@ -685,7 +691,7 @@ func decodeKeyStream(d *structDecoder, s *Stream) (*structFieldSet, string, erro
 		return nil, "", errors.ErrInvalidBeginningOfValue('n', s.totalOffset())
 	}
 	k := *(*string)(unsafe.Pointer(&key))
-	return d.fieldMap[k], k, nil
+	return d.lookupField(k), k, nil
 }
 
 func (d *structDecoder) DecodeStream(s *Stream, depth int64, p unsafe.Pointer) error {
